@@ -1,6 +1,7 @@
 SPECIFICATION Spec
 CONSTANTS Langs <- LangsAll
 MaxF <- MaxFSim
+AllBits = TRUE
 FullPairs = TRUE
 Precs <- PrecsAll
 Vers <- VersAll
